@@ -171,7 +171,7 @@ def build(cid, target, names, params, globals_, prop, replay=None):
             f"{fn}#4": Loop(ghost_step=pair_cut(f"{names['rounds']} - tail")),
         },
         ensures=[("result == transposed encoding (with this variant's table) of C(rounds) of the published round schedule", post)],
-        max_paths=400, time_budget=300, prune_timeout_ms=100, max_depth=6, prefer="cvc5", tier="thorough", timeout_ms=240000, replay=replay,
+        max_paths=400, time_budget=300, prune_timeout_ms=100, max_depth=6, prefer="cvc5", tier="thorough", timeout_ms=600000, replay=replay,
         prop=prop,
         descr="every password (no NUL), every salt <= 16 bytes, every rounds in [1000, 999999999]; H abstract with 32..64 byte digests",
     )
